@@ -5,7 +5,7 @@ import json, os, subprocess, sys, tempfile, shutil, concurrent.futures
 
 SEEDED = '/verif/seeded'
 EXTRA = {'C01': ['C02'], 'C02': ['C01'], 'C06': ['C10', 'C08'], 'C10': ['C06'], 'C04': ['C05', 'C12'], 'C05': ['C04', 'C03', 'C12', 'C13'], 'C03': ['C05'],
-         'C12': ['C05'], 'C13': ['C05', 'C04', 'C03'], 'C14': ['C13', 'C04'], 'C15': ['C03', 'C07', 'C06', 'C20', 'C09'], 'C20': ['C09'], 'C17': ['C19'], 'C19': ['C17'], 'C16': ['C18']}
+         'C12': ['C05'], 'C13': ['C05', 'C04', 'C03'], 'C14': ['C13', 'C04'], 'C15': ['C03', 'C07', 'C06', 'C20', 'C09'], 'C20': ['C09', 'C05', 'C16'], 'C17': ['C19'], 'C19': ['C17'], 'C16': ['C18']}
 
 
 def run_one(name):
